@@ -283,12 +283,19 @@ CONFIG = {
              "malformed share (64-byte labels, empty labels, trailing backslash, names over 255 octets); plus escape / "
              "parse-escaped ops. Non-trivial = an encode case whose packets contain at least one compression pointer. "
              "Distinct = distinct op lines.",
-        level_text="The encoder model (write_name with the compression table, write_record with placeholder/roll-back, to_packets with the "
-                   "TC continuation) is compared BYTE FOR BYTE with DnsOutgoing::to_data_on_wire of the working tree on every run, and an "
-                   "independent RFC 1035 reference reader written in Lean (label sequences, pointers strictly backwards) is evaluated on the "
-                   "real packets: size <= 8972, counts = entries, questions equal and records an in-order subsequence of what was added, field "
-                   "by field, TC on all but the last packet, no record left out that would fit, and the crate's own decoder agrees. Lean theorems "
-                   "(Props/C02.lean): see coverage.theorems.",
+        level_text="Lean theorems for ALL messages in the domain (names <= 255 octets, RDATA kind matching the type; labels 1..=63 bytes implied), "
+                   "with compression, escaping, roll-back and TC continuation: encode_sound (an independent RFC 1035 reference reader written in "
+                   "Lean parses every packet to exactly the questions and an in-order subsequence of the records that were added, field by "
+                   "field with label SEQUENCES; every packet <= 8972 bytes; TC on all but the last), header_counts, tc_flags, carried_in_order, "
+                   "names_invariant_writeName / names_invariant_writeRecord (compression-table invariant, exact restore on roll-back), "
+                   "encode_no_panic, labels_escape (registration escaping inverted by the wire writer), parseEscaped_no_empty. The size bound and "
+                   "the round trip carry the hypothesis questionsSize <= 8972, which is the known defect D17. The encoder model is compared BYTE "
+                   "FOR BYTE with DnsOutgoing::to_data_on_wire of the working tree on every run and the conclusion of encode_sound (plus: no "
+                   "record left out that would fit; the crate's own decoder agrees) is evaluated with the same reference reader on the real packets.",
+        partial=["decode_agrees (the crate's own decoder reads the same content) is stated in Props/C02.lean as part of `C02_full` but not proved; "
+                 "it is checked on the real packets of every run by the monitor clauses own-decoder-rejects / own-decoder-differs",
+                 "that a left-out record did not fit is checked by the monitor (clause dropped-record-that-fits), in the model it is the "
+                 "literal condition of the roll-back branch"],
         level_note="Trusted: Lean kernel; axioms propext, Classical.choice, Quot.sound only; hand-written model tied to the code by differential "
                    "testing of this run's inputs; the reference reader is the specification of 'parses back'. Records are created at a fixed "
                    "virtual time (the crate's clock seam).",
